@@ -520,6 +520,19 @@ def speclaws(v, invariants):
     shutil.rmtree(wd, ignore_errors=True)
 
 
+def apalache_laws(v):
+    """Unbounded (no bit width) check of the mixed-radix carry laws with Apalache: spec/apalache/Laws.tla."""
+    wd = vlib.workdir("%s_apalache" % v.prop)
+    out, dt = vlib.run(["timeout", "900", "apalache-mc", "check", "--length=0", "--inv=Law", "--out-dir=" + wd,
+                        os.path.join(vlib.SPEC, "apalache", "Laws.tla")], cwd=wd, check=False)
+    if "EXITCODE: OK" not in out or "The outcome is: NoError" not in out:
+        raise ToolError("Apalache does not confirm the carry laws of Val.tla (spec/apalache/Laws.tla):\n" + out[-2000:])
+    v.notes.append("Apalache: Laws.tla invariant Law holds for all normal-form (instant, interval) pairs over unbounded integers (%.0fs)" % dt)
+    if len(v.cov["checker_cmd"]) < 8:
+        v.cov["checker_cmd"].append("apalache-mc check --length=0 --inv=Law spec/apalache/Laws.tla")
+    shutil.rmtree(wd, ignore_errors=True)
+
+
 # ==========================================================================
 # pools-based properties
 # ==========================================================================
@@ -557,6 +570,7 @@ def c08(v):
                      "fractions) and seeded random values; judged by Ops.tla's exact mixed-radix arithmetic (succeeds iff the exact "
                      "result is in range; fractional days = nearest microsecond via big integers).")
     speclaws(v, ["LinearLaws", "IntervalLaws"])
+    apalache_laws(v)
     P = pools.Pools(v.seed, scale_of(v) * 2)
     plan = pools.plan_for(LINEAR_OPS, P, cap=4000 * scale_of(v))
     eventtrace(v, "linear", plan, {"result", "range", "panic"})
@@ -583,6 +597,7 @@ def c12(v):
                      "(mixed-radix sum with the day digit dropped = modulo 24h); Time - Time, Interval -> Time, Time vs "
                      "Interval comparisons over pools. distinct_nontrivial = distinct (op, args).")
     speclaws(v, ["WrapLaws"])
+    apalache_laws(v)
     P = pools.Pools(v.seed, scale_of(v))
     ivs = dt_boundary(P)
     step = 7 if v.tier == "quick" else 1
